@@ -663,3 +663,103 @@ impl Default for OpenOptions {
         Self::new()
     }
 }
+
+// ---------------------------------------------------------------------------------------
+// free functions of tokio::fs: each is `asyncify(std::fs::...)` in tokio, and so it is here
+// (one blocking task in the simulated pool)
+// ---------------------------------------------------------------------------------------
+
+pub async fn remove_file(path: impl AsRef<Path>) -> io::Result<()> {
+    let path = path.as_ref().to_owned();
+    asyncify(move || std::fs::remove_file(path)).await
+}
+
+pub async fn metadata(path: impl AsRef<Path>) -> io::Result<Metadata> {
+    let path = path.as_ref().to_owned();
+    asyncify(move || std::fs::metadata(path)).await
+}
+
+pub async fn symlink_metadata(path: impl AsRef<Path>) -> io::Result<Metadata> {
+    let path = path.as_ref().to_owned();
+    asyncify(move || std::fs::symlink_metadata(path)).await
+}
+
+pub async fn try_exists(path: impl AsRef<Path>) -> io::Result<bool> {
+    let path = path.as_ref().to_owned();
+    asyncify(move || path.try_exists()).await
+}
+
+pub async fn read(path: impl AsRef<Path>) -> io::Result<Vec<u8>> {
+    let path = path.as_ref().to_owned();
+    asyncify(move || std::fs::read(path)).await
+}
+
+pub async fn read_to_string(path: impl AsRef<Path>) -> io::Result<String> {
+    let path = path.as_ref().to_owned();
+    asyncify(move || std::fs::read_to_string(path)).await
+}
+
+pub async fn write(path: impl AsRef<Path>, contents: impl AsRef<[u8]>) -> io::Result<()> {
+    let path = path.as_ref().to_owned();
+    let contents = contents.as_ref().to_owned();
+    asyncify(move || std::fs::write(path, contents)).await
+}
+
+pub async fn rename(from: impl AsRef<Path>, to: impl AsRef<Path>) -> io::Result<()> {
+    let from = from.as_ref().to_owned();
+    let to = to.as_ref().to_owned();
+    asyncify(move || std::fs::rename(from, to)).await
+}
+
+pub async fn copy(from: impl AsRef<Path>, to: impl AsRef<Path>) -> io::Result<u64> {
+    let from = from.as_ref().to_owned();
+    let to = to.as_ref().to_owned();
+    asyncify(move || std::fs::copy(from, to)).await
+}
+
+pub async fn create_dir(path: impl AsRef<Path>) -> io::Result<()> {
+    let path = path.as_ref().to_owned();
+    asyncify(move || std::fs::create_dir(path)).await
+}
+
+pub async fn create_dir_all(path: impl AsRef<Path>) -> io::Result<()> {
+    let path = path.as_ref().to_owned();
+    asyncify(move || std::fs::create_dir_all(path)).await
+}
+
+pub async fn remove_dir(path: impl AsRef<Path>) -> io::Result<()> {
+    let path = path.as_ref().to_owned();
+    asyncify(move || std::fs::remove_dir(path)).await
+}
+
+pub async fn remove_dir_all(path: impl AsRef<Path>) -> io::Result<()> {
+    let path = path.as_ref().to_owned();
+    asyncify(move || std::fs::remove_dir_all(path)).await
+}
+
+pub async fn canonicalize(path: impl AsRef<Path>) -> io::Result<std::path::PathBuf> {
+    let path = path.as_ref().to_owned();
+    asyncify(move || std::fs::canonicalize(path)).await
+}
+
+pub async fn read_link(path: impl AsRef<Path>) -> io::Result<std::path::PathBuf> {
+    let path = path.as_ref().to_owned();
+    asyncify(move || std::fs::read_link(path)).await
+}
+
+pub async fn hard_link(src: impl AsRef<Path>, dst: impl AsRef<Path>) -> io::Result<()> {
+    let src = src.as_ref().to_owned();
+    let dst = dst.as_ref().to_owned();
+    asyncify(move || std::fs::hard_link(src, dst)).await
+}
+
+pub async fn symlink(src: impl AsRef<Path>, dst: impl AsRef<Path>) -> io::Result<()> {
+    let src = src.as_ref().to_owned();
+    let dst = dst.as_ref().to_owned();
+    asyncify(move || std::os::unix::fs::symlink(src, dst)).await
+}
+
+pub async fn set_permissions(path: impl AsRef<Path>, perm: Permissions) -> io::Result<()> {
+    let path = path.as_ref().to_owned();
+    asyncify(move || std::fs::set_permissions(path, perm)).await
+}
